@@ -172,7 +172,7 @@ fn http(addr: &str, method: &str, path: &str, body: Option<&Value>, read_ms: u64
 fn wait_log(store: &Store, needle_a: &str, needle_b: &str, secs: u64) -> bool {
     let start = Instant::now();
     while start.elapsed() < Duration::from_secs(secs) {
-        let b = store.log_bytes();
+        let b = store.log_bytes_settled();
         let t = String::from_utf8_lossy(&b);
         if t.lines().any(|l| l.contains(needle_a) && l.contains(needle_b)) {
             return true;
@@ -214,7 +214,7 @@ pub fn observe(cfg: &Cfg, r: &mut Report) {
         };
         let addr = srv.addr.clone();
         let mut check = |what: &str, store: &Store| {
-            let now = store.log_bytes();
+            let now = store.log_bytes_settled();
             if !(now.len() >= old.len() && now[..old.len()] == old[..]) && prefix_broken.is_none() {
                 prefix_broken = Some(what.to_string());
             }
